@@ -525,10 +525,10 @@ class Realiser:
 
             return o.if_(cond, then_branch=mk(st["then"]), else_branch=mk(st["else"]))[0]
         if op == "reffn":  # a Function subclass whose body refers to the function's attribute (tests/test_function.py idiom)
-            key = ("reffn", st["name"], st["mv"], st["k"])
+            key = ("reffn", st["name"], st["mv"])
             if key not in self.fn_cache:
                 self.fn_cache[key] = self.ref_function(st)
-            return self.fn_cache[key](env[st["args"][0]])
+            return self.fn_cache[key](env[st["args"][0]], st["k"])
         if op == "loop":  # two iterations over one state; the body may use outer values
             o = ops(st["mv"])
             blk, pid = st["body"], st["param"]
@@ -983,6 +983,7 @@ class Gen:
             elif r < 0.22 and depth == 0 and not in_func and self.allow_func:
                 st = {"id": self.fresh(), "op": "reffn", "mv": self.mv(), "name": f"RefFn{next(_uid)}",
                       "k": rng.choice([2.0, -0.5, 1.5]), "args": [rng.choice([p_ for p_ in pool if p_ not in tainted] or ["x"])]}
+                self.funcs_made.append(st)
             elif r < 0.27 and self.allow_inline and (not in_func or self.inline_in_func):
                 md = self.model_desc()
                 if in_func and md["kind"] not in ("old", "oldx"):
@@ -1028,7 +1029,9 @@ class Gen:
                 f0 = rng.choice(self.funcs_made)
                 st = copy_json(f0)
                 st["id"] = self.fresh()
-                st["args"] = [rng.choice([p for p in pool if p not in tainted] or ["x"]) for _ in f0["params"]]
+                st["args"] = [rng.choice([p for p in pool if p not in tainted] or ["x"]) for _ in f0.get("params", [0])]
+                if st["op"] == "reffn" and rng.random() < 0.5:
+                    st["k"] = rng.choice([2.0, -0.5, 1.5, 3.0])  # the same function, another attribute value
             elif r < 0.39 and self.allow_ml:
                 st = {"id": self.fresh(), "op": rng.choice(list(ML_MACROS)), "mv": rng.choice(ML_VERSIONS),
                       "dv": self.mv(), "args": [rng.choice([p for p in pool if p not in tainted] or ["x"])]}
